@@ -151,6 +151,21 @@ func modelResolve(w *World, from *SFile, ref string) (tag, def string, ok bool) 
 		if !okDef {
 			return target.Tag, def, false
 		}
+		// a definition that is {"type": "object", "$ref": R} stands for what R denotes, R being relative to the
+		// document that holds the definition
+		if dv, ok := target.Doc.Get(defsKey(target.Doc)); ok && target.Doc != nil {
+			if do, ok := dv.(Obj); ok {
+				if body, ok := do.Get(def); ok {
+					if bo, ok := body.(Obj); ok {
+						if inner, ok := bo.Get("$ref"); ok && len(bo) <= 2 {
+							if is, ok := inner.(string); ok && is != ref {
+								return modelResolve(w, target, is)
+							}
+						}
+					}
+				}
+			}
+		}
 	}
 	return target.Tag, def, true
 }
